@@ -350,6 +350,10 @@ func genC20L(t *rapid.T) c20LifeCase {
 		PollUs: rapid.SampledFrom([]int{200, 500, 1000}).Draw(t, "poll")}
 	op := rapid.Custom(func(t *rapid.T) c20LOp {
 		switch k := rapid.IntRange(0, 10).Draw(t, "k"); {
+		case k == 10 && rapid.Bool().Draw(t, "restart"):
+			// a registry that is stopped and started again many times over (configuration reloads): N quick Stop / Start
+			// pairs, after which it must behave like one that was started once
+			return c20LOp{K: "restart", N: rapid.SampledFrom([]int{2, 5, 17, 64, 200}).Draw(t, "restarts")}
 		case k == 10:
 			return c20LOp{K: "pstart", N: rapid.IntRange(2, 6).Draw(t, "starters")}
 		case k < 4:
@@ -577,6 +581,31 @@ func runC20L(_ *testing.T, c c20LifeCase) (out kit.Outcome) {
 					return finish(kit.Viol(c.Backend+":started-not-polling", "op %d: after Start (ops so far %v) the poller goroutine exists but is parked and no gauge has been polled for 32 s at a poll period of %v", i, c.Ops[:i+1], period))
 				}
 				return finish(kit.Outcome{Harness: "no poll within 30 s after Start although a poller exists (inconclusive)"})
+			}
+		case "restart":
+			if !running {
+				if o := checkQuiet(clock.Add(1), "while the registry was not started"); o != nil {
+					return finish(*o)
+				}
+			}
+			for r := 0; r < op.N; r++ {
+				if o := stop(); o != nil {
+					return finish(*o)
+				}
+				b.reg.Start()
+			}
+			// the registry is started now (whatever it was before): a fresh interval begins here
+			before := nPolls()
+			intervalStart = clock.Add(1)
+			running = true
+			if !waitFor(30*time.Second, func() bool { return nPolls() > before }) {
+				if !strings.Contains(allStacks(), "MetricRegistry).run") {
+					return finish(kit.Viol(c.Backend+":start-no-poller", "op %d: after %d Stop/Start pairs no gauge poll arrives and no goroutine is inside the registry's poll loop", i, op.N))
+				}
+				if idlePollerProven(nPolls) {
+					return finish(kit.Viol(c.Backend+":started-not-polling", "op %d: after %d Stop/Start pairs the poller goroutine exists but is parked and no gauge has been polled for 32 s at a poll period of %v", i, op.N, period))
+				}
+				return finish(kit.Outcome{Harness: "no poll within 30 s after the restarts although a poller exists (inconclusive)"})
 			}
 		case "stop":
 			if o := stop(); o != nil {
